@@ -173,6 +173,15 @@ def run_shard(shard, ctx, tier):
             ctx.states += 1
             ctx.tick(s)
             for p in range(-1, len(s) + 2):
+                # a call that relies on the defaults, made between calls with explicit options, behaves like the explicit defaults
+                try:
+                    a = extract(s, p)
+                    b_ = extract(s, p, {'type': 'markup', 'lookAhead': True, 'prefix': ''})
+                except Exception:
+                    a = b_ = None
+                if repr(a) != repr(b_):
+                    ctx.violation('consistency:default-options-differ-from-explicit-defaults',
+                                  dict(line=s, pos=p, type=None, lookAhead=None, prefix=None), dict(default_call=repr(a), explicit_call=repr(b_)))
                 for typ in ('markup', 'stylesheet'):
                     for la in las:
                         for pre in pres:
@@ -216,6 +225,11 @@ def run_shard(shard, ctx, tier):
 
 
 def check_case(case):
+    if 'line' in case and case.get('type') is None:
+        extract(case['line'], case['pos'], {'type': 'stylesheet', 'lookAhead': False, 'prefix': '<'})
+        a = extract(case['line'], case['pos'])
+        b_ = extract(case['line'], case['pos'], {'type': 'markup', 'lookAhead': True, 'prefix': ''})
+        return [('consistency:default-options-differ-from-explicit-defaults', dict(default_call=repr(a), explicit_call=repr(b_)))] if repr(a) != repr(b_) else []
     if 'line' in case:
         kind, bad = consistency(case['line'], case['pos'], case['type'], case['lookAhead'], case['prefix'])
         if bad:
